@@ -143,7 +143,7 @@ func c19Prop(c *sim.Case) {
 		}
 	}
 	check("start-up", true)
-	n := 3 + sim.Pick(c, "nevents", 22)
+	n := 3 + sim.Tail(c, "nevents", 22, 90)
 	var kinds []string
 	ctr := 0
 	for e := 0; e < n; e++ {
